@@ -128,7 +128,7 @@ CHECKS = {
   "and call-site obligations that exec and execBackground start the child with Dir = the script's directory and Env = the script's list plus PWD. "
   "The splitting function itself (words, '' , #, no re-splitting / re-expansion of values) is compared with a reference tokenizer written from the property text by a bounded stand-in. The last entry of a child's environment is PWD= followed by the script's current directory, for foreground and background commands.",
   "assumed: os.Expand applies the mapping to $NAME / ${NAME} references (its grammar is not modelled), regexp.QuoteMeta matches exactly its argument, os/exec uses the last duplicate in Env; waitOrStop, pty helpers and execpath.Look are trusted (pure); "
-  "the pointwise agreement of the env list with envMap across all assignments (lastVal) is not stated as an invariant, only the per-Setenv step; bounded: tokenizer vs reference over lines of up to 5 (quick) / 7 (thorough) tokens from an 11-token vocabulary (incl. a two-byte UTF-8 letter whose second byte is 0xA0) with two variables whose values contain blanks, quotes and a $ reference",
+  "the pointwise agreement of the env list with envMap across all assignments (lastVal) is not stated as an invariant, only the per-Setenv step; bounded: tokenizer vs reference over lines of up to 5 (quick) / 7 (thorough) tokens from a 13-token vocabulary (incl. a two-byte UTF-8 letter whose second byte is 0xA0, a form feed and a no-break space, which are not separators) with two variables whose values contain blanks, quotes and a $ reference",
   "contract-based deductive verification (safety, termination and call-site obligations over go/ssa; z3/cvc5) plus a labelled bounded stand-in for the tokenizer's functional behaviour"),
  "C03": ("5 C03",
   "Contracts on txtar.isMarker, fixNL, findFileMarker and Parse, discharged for every byte string: every index/slice expression is in bounds (Parse cannot panic); isMarker's result equals the marker vocabulary written from the format text (a line '-- name --' with a non-blank name, LF or CRLF ended or at end of input) and its remainder starts after that line; "
@@ -176,8 +176,8 @@ EXTRA = {
  "C12": " put itself never removes or truncates a file; copyFile never reopens for writing an existing output whose size and hash already match, passes O_TRUNC only when the existing file is longer than the new content, and truncates only to zero. The lookup side (GetFile's size gate, GetBytes' checksum gate, get's record layout) is part of this check's set.",
  "C13": " GetBytes reads the data file only after its mtime was refreshed (younger than one hour before the call, when no file operation fails), like GetFile. A due Trim makes exactly 256 trimSubdir passes, the i-th on Join(dir, Sprintf(\"%02x\", i)). trimSubdir asks for the whole directory listing (Readdirnames with n <= 0), and the 256 passes happen whenever the last-trim record is not recent, whatever else Trim returns.",
  "C14": " What txtar-c hands to NeedsQuote is the file's bytes as read, changed at most by one added final newline. isMarker, findFileMarker and fixNL (through which NeedsQuote's contract is discharged) are part of this check's set.",
- "C15": " cmd/txtar-x's main extracts the freshly parsed archive with txtar.Write into the directory given by -C and ends with exit status 1 exactly when Write failed; cmd/txtar-c's main walks from the cleaned directory argument, so entry names are relative to it. For the round-trip clause, the quoting functions (NeedsQuote, Quote, lemma quotedSafe), the marker scanner and Parse, with both txtar stand-ins (BOUNDED), are part of this check's set. Write returns its outside-parent error only for a name that is absolute or climbs out (in-bounds names such as ..data are not refused). A quoted file is announced in the comment under the same name its entry gets. txtar-c's walk callback never skips the root directory it was given.",
- "C16": " run (which must hold applyScriptUpdates on the defer stack before any line runs or fails) is part of this check's set. cmp reads its second operand from the file MkAbs names (never the stdout/stderr buffers).",
+ "C15": " cmd/txtar-x's main extracts the freshly parsed archive with txtar.Write into the directory given by -C and ends with exit status 1 exactly when Write failed; cmd/txtar-c's main walks from the cleaned directory argument, so entry names are relative to it. For the round-trip clause, the quoting functions (NeedsQuote, Quote, lemma quotedSafe), the marker scanner and Parse, with both txtar stand-ins (BOUNDED), are part of this check's set. Write returns its outside-parent error only for a name that is absolute or climbs out (in-bounds names such as ..data are not refused). A quoted file is announced in the comment under the same name its entry gets. txtar-c's walk callback never skips the root directory it was given; the archived name is the walked path with exactly the directory argument and one separator removed from its front (so a leading dot of a top-level name survives), and that name is what is stored.",
+ "C16": " setup records every unpacked file under its absolute path with the entry's raw name as written in the archive (what applyScriptUpdates matches on), and is part of this check's set. run (which must hold applyScriptUpdates on the defer stack before any line runs or fails) is part of this check's set. cmp reads its second operand from the file MkAbs names (never the stdout/stderr buffers).",
  "C18": " scanFiles (the caller that feeds files to ReadImports) is in this check's set: it reads imports without syntax-error reporting and only from the opened file. readKeyword: without error the byte after the keyword is peeked and is not an identifier byte; the stand-in also checks every generated file with CRLF line ends; ScanFiles hands its arguments to scanFiles unchanged. The reader records only its two sentinels or errors of the underlying reader, and ReadImports never returns the syntax sentinel when syntax errors are not requested. The // comment loop of peekByte terminates (decreases clause over remaining input, end of input and error); readKeyword skips white space before the keyword only, never between its bytes. peekByte's block-comment loop keeps the last two input bytes in its window, no */ ends before the window, and without error it stops just after the first */ that follows the opener (so /*/ does not close and /***/ does).",
  "C19": " scanFiles evaluates ShouldBuild on exactly the bytes it read and with the caller's tag map (unless the files were named explicitly).",
  "C20": " par.Cache's Do and Get (C10's rely-guarantee contracts) are part of this check's set; isPseudoVersion is compared with golang.org/x/mod/module.IsPseudoVersion by a BOUNDED stand-in over composed version strings (no build metadata other than +incompatible). readArchive looks an archive up under <dir>/<escaped path with / as _>_<escaped version> (.txtar and .txt appended for the file forms), uses that base name as cache key, and its cache closure always returns a typed value. The archive closure returns a non-nil archive only when one of the three loading steps succeeded.",
